@@ -107,10 +107,14 @@ def live? : Ent δ → Option δ
   | _ => none
 end Ent
 
+/-- `dfr`: the checks whose deferred-output timer (`CheckState.DeferCheck`) is armed. In the code
+    as it is an armed timer is always a running one: it is cleared (set to nil) wherever it is
+    stopped, or the whole record goes away. -/
 structure Local where
   nodeInSync : Bool
   svcs : AMap (Ent SvcDef)
   chks : AMap (Ent ChkDef)
+  dfr : List Id := []
 deriving DecidableEq, Repr
 
 /-- the catalog's view of the agent's node; `node` is the node-level info that `updateSyncState`
@@ -125,9 +129,14 @@ structure Cfg where
   nodeVal : Nat
   cfgTok  : String     -- tokens.ConfigFileRegistrationToken()
   userTok : String     -- tokens.UserToken()
+  cui : Bool := false  -- config.CheckUpdateInterval > 0: output-only check updates are deferred
 deriving DecidableEq, Repr
 
-def Local.empty : Local := ⟨false, [], []⟩
+def Local.empty : Local := ⟨false, [], [], []⟩
+
+def Local.armed (l : Local) (k : Id) : Bool := l.dfr.contains k
+def Local.disarm (l : Local) (k : Id) : Local := { l with dfr := l.dfr.filter fun x => x != k }
+def Local.arm (l : Local) (k : Id) : Local := if l.dfr.contains k then l else { l with dfr := k :: l.dfr }
 def Cat.empty : Cat := ⟨none, [], []⟩
 
 /-! ### server side: Catalog.Register / Catalog.Deregister on the node's entries -/
@@ -188,13 +197,15 @@ def addSvc1 (l : Local) (id : Id) (d : SvcDef) (tok : String) (isLocal : Bool) :
   | some (.ghost _) => (.panic, l)
   | some (.ent d0 _ _ _ _) => (.ok, { l with svcs := l.svcs.set id (.ent d tok isLocal (d == d0) false) })
 
-/-- `addCheckLocked` + `setCheckStateLocked` (CheckUpdateInterval = 0: no defer timers) -/
+/-- `addCheckLocked` + `setCheckStateLocked`: an armed defer timer of the record being replaced is
+    handed over to the new record, which is then out of sync -/
 def addChk1 (l : Local) (k : Id) (d : ChkDef) (tok : String) (isLocal : Bool) : Res × Local :=
   if d.sid ≠ "" ∧ l.svcs.get? d.sid = none then (.err, l)
   else match l.chks.get? k with
     | none => (.ok, { l with chks := l.chks.set k (.ent d tok isLocal false false) })
     | some (.ghost _) => (.panic, l)
-    | some (.ent d0 _ _ _ _) => (.ok, { l with chks := l.chks.set k (.ent d tok isLocal (d == d0) false) })
+    | some (.ent d0 _ _ _ _) =>
+      (.ok, { l with chks := l.chks.set k (.ent d tok isLocal (d == d0 && !l.armed k) false) })
 
 def addChks (l : Local) (tok : String) (isLocal : Bool) : List (Id × ChkDef) → Res × Local
   | [] => (.ok, l)
@@ -234,13 +245,26 @@ def rmSvc (l : Local) (id : Id) (ks : List Id) : Res × Local :=
   | (.ok, l') => rmChks l' ks
   | r => r
 
-/-- `UpdateCheck` (status/output change of a registered check) -/
-def updChk (l : Local) (k : Id) (st : Nat) : Local :=
+/-- `UpdateCheck`. `status` stands for Status (`status % 3`) and Output (`status / 3`). With
+    CheckUpdateInterval > 0 (`cui`) a change of the output alone is stored but not marked out of
+    sync: it arms the defer timer (unless one is armed already). -/
+def updChk (cui : Bool) (l : Local) (k : Id) (st : Nat) : Local :=
   match l.chks.get? k with
-  | some (.ent d tok loc _ false) =>
+  | some (.ent d tok loc b false) =>
     if d.status = st then l
+    else if cui ∧ d.status % 3 = st % 3 then
+      ({ l with chks := l.chks.set k (.ent { d with status := st } tok loc b false) }).arm k
     else { l with chks := l.chks.set k (.ent { d with status := st } tok loc false false) }
   | _ => l
+
+/-- the defer timer of check `k` fires (`time.AfterFunc` body in `UpdateCheck`): the timer is
+    cleared and — unless the check is pending removal — the check is marked out of sync -/
+def fire (l : Local) (k : Id) : Local :=
+  if l.armed k then
+    match l.chks.get? k with
+    | some (.ent d tok loc _ false) => { (l.disarm k) with chks := l.chks.set k (.ent d tok loc false false) }
+    | _ => l.disarm k
+  else l
 
 /-! ### updateSyncState -/
 
@@ -274,14 +298,19 @@ def usSvc (c : Cat) (id : Id) (e : Ent SvcDef) : Ent SvcDef :=
     | .ent d tok loc b true => .ent d tok loc b true
     | .ent d tok loc _ false => .ent (absorb d rs) tok loc (absorb d rs == rs) false
 
-def usChk (c : Cat) (k : Id) (e : Ent ChkDef) : Ent ChkDef :=
+/-- `IsSame` with the Output blanked on both sides (what `updateSyncState` compares while the
+    defer timer of the check is armed) -/
+def sameButOutput (d rc : ChkDef) : Bool :=
+  d.sid == rc.sid && d.status % 3 == rc.status % 3 && d.sname == rc.sname && d.stags == rc.stags
+
+def usChk (c : Cat) (armed : Id → Bool) (k : Id) (e : Ent ChkDef) : Ent ChkDef :=
   match c.chks.get? k with
   | none => e.setInSync false
   | some rc =>
     match e with
     | .ghost b => .ghost b
     | .ent d tok loc b true => .ent d tok loc b true
-    | .ent d tok loc _ false => .ent d tok loc (d == rc) false
+    | .ent d tok loc _ false => .ent d tok loc (if armed k then sameButOutput d rc else d == rc) false
 
 /-- placeholders for remote-only entries (the `consul` service and the serf check are skipped) -/
 def ghostsFor {δ ρ : Type} (special : Id → Bool) (loc : AMap (Ent δ)) (rem : AMap ρ) : AMap (Ent δ) :=
@@ -290,7 +319,8 @@ def ghostsFor {δ ρ : Type} (special : Id → Bool) (loc : AMap (Ent δ)) (rem 
 def updateSyncState (cfg : Cfg) (l : Local) (c : Cat) : Local :=
   { nodeInSync := if c.node = some cfg.nodeVal then l.nodeInSync else false
     svcs := l.svcs.mapVals (usSvc c) ++ ghostsFor specialSvc l.svcs c.svcs
-    chks := l.chks.mapVals (usChk c) ++ ghostsFor specialChk l.chks c.chks }
+    chks := l.chks.mapVals (usChk c l.armed) ++ ghostsFor specialChk l.chks c.chks
+    dfr := l.dfr }
 
 /-! ### SyncChanges -/
 
@@ -384,7 +414,8 @@ def deleteService (f : Faults) (id : Id) (s : St) : St :=
     { s with
       l := { s.l with
              svcs := s.l.svcs.erase id
-             chks := s.l.chks.filterVis (pruneKeep id) }
+             chks := s.l.chks.filterVis (pruneKeep id)
+             dfr := s.l.dfr.filter fun k => AMap.visKeep (pruneKeep id) s.l.chks k }
       c := s.c.deregSvc id }
   | .lost => { s with c := s.c.deregSvc id, ok := false }
 
@@ -421,7 +452,7 @@ def deleteCheck (f : Faults) (k : Id) (s : St) : St :=
   else match f.chk k with
   | .denied => { s with l := markChk s.l k }
   | .fail => { s with ok := false }
-  | .ok => { s with l := { s.l with chks := s.l.chks.erase k }, c := s.c.deregChk k }
+  | .ok => { s with l := { (s.l.disarm k) with chks := s.l.chks.erase k }, c := s.c.deregChk k }
   | .lost => { s with c := s.c.deregChk k, ok := false }
 
 def chkStep (cfg : Cfg) (f : Faults) (s : St) (k : Id) : St :=
@@ -429,7 +460,7 @@ def chkStep (cfg : Cfg) (f : Faults) (s : St) (k : Id) : St :=
   | none => s
   | some (.ghost _) => deleteCheck f k s
   | some (.ent _ _ _ _ true) => deleteCheck f k s
-  | some (.ent d _ _ false false) => syncCheck cfg f k d s
+  | some (.ent d _ _ false false) => syncCheck cfg f k d { s with l := s.l.disarm k }   -- timer stopped and cleared
   | some (.ent _ _ _ true false) => s
 
 /-- the keys a `range` visits: the observed order first, then whatever it did not mention -/
